@@ -185,6 +185,18 @@ def explore(chk):
                             c_.layout_info = setbuild.mk_layout({"origin": ["10%", "10%"], "extent": ["80%", "20%"]})
                         for n_ in c_.nodes:
                             n_.layout_info = n_.layout_info or c_.layout_info
+        if i % 6 == 2:
+            # two consecutive captions that start together and end apart (two runs), or start and end together (one run)
+            ssub_ = chk.sub("same_start")
+            for l_ in cs_.get_languages():
+                caps_ = cs_.get_captions(l_)
+                if len(caps_) >= 2:
+                    k_ = ssub_.randrange(len(caps_) - 1)
+                    caps_[k_ + 1].start = caps_[k_].start
+                    if ssub_.random() < 0.3:
+                        caps_[k_ + 1].end = caps_[k_].end
+                    elif caps_[k_ + 1].end == caps_[k_].end:
+                        caps_[k_ + 1].end = caps_[k_].end + 500000
         sets.append(("api", d, cs_))
     # sets returned by readers
     for i in range(N // 3):
